@@ -9,7 +9,7 @@
      progress fam : a decoder that continues (calls NextDecoder) has added a layer whose
                     payload is strictly shorter than the data it was given
    and the bound is recursion depth <= |data| + 1 (fuel S (length data)). *)
-From GP Require Import Base PacketCore PacketScript PacketCoreProofs.
+From GP Require Import Base PacketCore PacketScript PacketCoreProofs PacketScriptProofs PacketCoreThms.
 Open Scope Z_scope.
 
 (* ---- totality ---- *)
@@ -18,17 +18,14 @@ Open Scope Z_scope.
 Theorem C01_total : forall fam data first o,
   progress fam -> o_skiprec o = false ->
   exists pe, new_eager (S (length data)) fam data first o = NewOk pe.
-Proof. intros fam data first o HP Hs. exact (new_eager_total fam HP data first o Hs). Qed.
+Proof. exact thm_C01_total. Qed.
 Print Assumptions C01_total.
 
 (* NewPacket with any Lazy setting returns a packet *)
 Theorem C01_total_new_packet : forall fam data first o,
   progress fam -> o_skiprec o = false ->
   exists pk, new_packet (S (length data)) fam data first o = NewOk pk.
-Proof.
-  intros fam data first o HP Hs. unfold new_packet. destruct (o_lazy o); [eauto|].
-  destruct (new_eager_total fam HP data first o Hs) as [pe He]. rewrite He. eauto.
-Qed.
+Proof. exact thm_C01_total_new_packet. Qed.
 Print Assumptions C01_total_new_packet.
 
 (* every accessor program on the lazy packet terminates (each loop within |data|+2 steps)
@@ -38,23 +35,13 @@ Theorem C01_total_lazy : forall fam data first o prog,
   exists lp rs,
     lazy_program (S (S (length data))) fam (new_lazy data first o) prog = Some (lp, rs) /\
     ~ In RPanic rs.
-Proof.
-  intros fam data first o prog HP Hs.
-  pose proof (progress_F6 fam HP) as HF.
-  destruct data as [|b rest].
-  - destruct (lazy_program_sim fam HF _ _ prog _ (new_lazy_inv_empty fam (S (length (@nil Z))) first o))
-      as [lp [A _]].
-    exists lp; eexists; split; [exact A | apply eager_program_no_panic].
-  - destruct (new_eager_total fam HP (b :: rest) first o Hs) as [pe He].
-    destruct (lazy_program_sim fam HF _ pe prog _ (new_lazy_inv fam _ (b :: rest) first o pe ltac:(discriminate) He))
-      as [lp [A _]].
-    exists lp; eexists; split; [exact A | apply eager_program_no_panic].
-Qed.
+Proof. exact thm_C01_total_lazy. Qed.
 Print Assumptions C01_total_lazy.
 
 (* accessors of an eager packet never panic (they are pure reads) *)
 Theorem C01_eager_accessors_total : forall p a, eager_access p a <> RPanic.
-Proof. exact eager_access_no_panic. Qed.
+Proof. exact thm_C01_eager_accessors_total. Qed.
+Print Assumptions C01_eager_accessors_total.
 
 (* ---- error-layer discipline ---- *)
 
@@ -71,11 +58,7 @@ Theorem C01_error_discipline : forall fam n data first o p r pe,
   eager_decode n fam first data (empty_packet data o) = (p, r) ->
   finish_decode (p, r) = NewOk pe ->            (* pe = what NewPacket returned *)
   discipline (decode_failed r) pe.
-Proof.
-  intros fam n data first o p r pe H1 H2 HE HF.
-  eapply discipline_finish; [|exact HF].
-  eapply clean_eager_decode; eauto using clean_empty.
-Qed.
+Proof. exact thm_C01_error_discipline. Qed.
 Print Assumptions C01_error_discipline.
 
 (* the same for the lazy packet once Layers() (or String/Dump) has been called *)
@@ -86,14 +69,7 @@ Theorem C01_error_discipline_lazy : forall fam n data first o p r pe prog lp rs,
   existsb forces_all prog = true ->
   lazy_program (S n) fam (new_lazy data first o) prog = Some (lp, rs) ->
   discipline (decode_failed r) (lp_p lp) /\ lp_p lp = pe.
-Proof.
-  intros fam n data first o p r pe prog lp rs H1 H2 HF Hd HE HFin Hall HL.
-  assert (He : new_eager n fam data first o = NewOk pe) by (unfold new_eager; rewrite HE; exact HFin).
-  destruct (lazy_program_sim fam HF n pe prog _ (new_lazy_inv fam n data first o pe Hd He)) as [lp' [A [_ C]]].
-  rewrite A in HL. inversion HL; subst lp'.
-  destruct (C (or_intror Hall)) as [_ EQ]. split; [|exact EQ]. rewrite EQ.
-  eapply C01_error_discipline; eauto.
-Qed.
+Proof. exact thm_C01_error_discipline_lazy. Qed.
 Print Assumptions C01_error_discipline_lazy.
 
 (* on empty input the lazy packet never decodes anything: no layers, no error layer *)
@@ -101,17 +77,7 @@ Theorem C01_lazy_empty_input : forall fam n first o prog lp rs,
   F6 fam ->
   lazy_program (S n) fam (new_lazy [] first o) prog = Some (lp, rs) ->
   p_layers (lp_p lp) = [] /\ p_failure (lp_p lp) = None /\ rs = eager_program (empty_packet [] o) prog.
-Proof.
-  intros fam n first o prog lp rs HF HL.
-  destruct (lazy_program_sim fam HF n _ prog _ (new_lazy_inv_empty fam n first o)) as [lp' [A [B _]]].
-  rewrite A in HL. inversion HL; subst.
-  destruct B as [k [_ Hc]]. pose proof (continue_ext _ _ _ _ Hc) as X.
-  destruct (ext_layers _ _ X) as [more Hm]. cbn in Hm.
-  destruct (p_layers (lp_p lp)); [|discriminate].
-  split; [reflexivity|]. split; [|reflexivity].
-  destruct (p_failure (lp_p lp)) as [e|] eqn:E; [|reflexivity].
-  pose proof (ext_failure _ _ X e E) as Y. cbn in Y. discriminate.
-Qed.
+Proof. exact thm_C01_lazy_empty_input. Qed.
 Print Assumptions C01_lazy_empty_input.
 
 (* Without any hypothesis on SetErrorLayer: whenever decoding failed, the LAST layer is a
@@ -120,18 +86,18 @@ Theorem C01_error_general : forall fam n data first o p r pe,
   eager_decode n fam first data (empty_packet data o) = (p, r) ->
   finish_decode (p, r) = NewOk pe -> decode_failed r = true ->
   p_failure pe <> None /\ exists before f, p_layers pe = before ++ [f] /\ l_fail f = true.
-Proof. intros. eapply general_finish; eauto. Qed.
+Proof. exact thm_C01_error_general. Qed.
 Print Assumptions C01_error_general.
 
-(* ---- a decoder that DOES call SetErrorLayer and continues (layers/sctp.go:
-   decodeSCTPChunkTypeUnknown): the discipline fails, by documented design of that layer.
-   Script: 10 = common header, 11 = chunk decoder choosing by the first byte (mod 3):
-   0 -> ordinary chunk, 1 -> unknown chunk (AddLayer; SetErrorLayer; continue), 2 -> error. ---- *)
-Definition sctp_like : script_table :=
-  [ (10, [mkVariant [mkLspec 10 2 PRest] [SAdd 0; STrans 0] (Next 11) None]);
-    (11, [mkVariant [mkLspec 20 2 PRest] [SAdd 0] (Next 11) None;
-          mkVariant [mkLspec 21 2 PRest] [SAdd 0; SErrL 0] (Next 11) None;
-          mkVariant [] [STrunc] Fail None]) ].
+(* The scripted families the correspondence executes: decidable checks evaluated per case by
+   the runner (tags hyp-progress, hyp-no-seterr) imply the hypotheses of the theorems above;
+   no scripted decoder adds a DecodeFailure. *)
+Theorem C01_scripted_families : forall tbl,
+  (table_progressb tbl = true -> progress (family_of tbl)) /\
+  (table_no_seterrb tbl = true -> no_seterr (family_of tbl)) /\
+  no_fail_layers (family_of tbl).
+Proof. exact thm_C01_scripted_families. Qed.
+Print Assumptions C01_scripted_families.
 
 (* (a) nothing fails, yet ErrorLayer() is non-nil, is not a DecodeFailure and is not last *)
 Theorem C01_seterror_refuted :
@@ -140,14 +106,8 @@ Theorem C01_seterror_refuted :
     finish_decode (p, r) = NewOk pe /\
     decode_failed r = false /\ p_failure pe = Some e /\ l_fail e = false /\
     last (p_layers pe) e <> e /\ ~ discipline (decode_failed r) pe.
-Proof.
-  exists [0;0; 1;9; 0;9], (mkOpts false false false false false).
-  eexists; eexists; eexists; eexists.
-  split; [vm_compute; reflexivity|]. split; [vm_compute; reflexivity|].
-  split; [reflexivity|]. split; [vm_compute; reflexivity|]. split; [reflexivity|].
-  split; [vm_compute; discriminate|].
-  intros [_ [D2 _]]. destruct D2 as [D2 _]. specialize (D2 eq_refl). vm_compute in D2. discriminate.
-Qed.
+Proof. exact thm_C01_seterror_refuted. Qed.
+Print Assumptions C01_seterror_refuted.
 
 (* (b) a later chunk fails: the final DecodeFailure is last, but ErrorLayer() is still the
    unknown chunk: a DecodeFailure layer that is not the error layer *)
@@ -157,56 +117,8 @@ Theorem C01_seterror_then_failure_refuted :
     finish_decode (p, r) = NewOk pe /\
     decode_failed r = true /\ p_failure pe = Some e /\ l_fail e = false /\
     last (p_layers pe) e = f /\ l_fail f = true /\ f <> e.
-Proof.
-  exists [0;0; 1;9; 2;9], (mkOpts false false false false false).
-  eexists; eexists; eexists; eexists; eexists.
-  split; [vm_compute; reflexivity|]. split; [vm_compute; reflexivity|].
-  split; [reflexivity|]. split; [vm_compute; reflexivity|]. split; [reflexivity|].
-  split; [vm_compute; reflexivity|]. split; [reflexivity|]. discriminate.
-Qed.
-
-(* ---- non-vacuity of the discipline theorem: a scripted family without SetErrorLayer whose
-   third decoder panics after adding a layer; the panic is recovered into a last DecodeFailure ---- *)
-Definition ex_fam2 : family := fun t =>
-  if t =? 10 then Some (fun data o =>
-    match data with
-    | [] => ([], Fail)
-    | b :: rest => let l := mkLayer 10 [b] rest false in ([Add l; SetLink l], Next 11)
-    end)
-  else if t =? 11 then Some (fun data o =>
-    match data with
-    | [] => ([], Fail)
-    | b :: rest => ([Add (mkLayer 11 [b] rest false)], if b =? 0 then Ret else PanicT)
-    end)
-  else None.
-
-Lemma ex_fam2_progress : progress ex_fam2.
-Proof.
-  intros t d data o acts t' EF ED. unfold ex_fam2 in EF.
-  destruct (t =? 10).
-  - inversion EF; subst d. destruct data as [|b rest]; inversion ED; subst.
-    eexists; split; [reflexivity|]. cbn. lia.
-  - destruct (t =? 11); [|discriminate]. inversion EF; subst d.
-    destruct data as [|b rest]; [inversion ED|]. destruct (b =? 0); inversion ED.
-Qed.
-
-Lemma ex_fam2_no_seterr : no_seterr ex_fam2.
-Proof.
-  intros t d data o acts term EF ED. unfold ex_fam2 in EF.
-  destruct (t =? 10).
-  - inversion EF; subst d. destruct data; inversion ED; reflexivity.
-  - destruct (t =? 11); [|discriminate]. inversion EF; subst d.
-    destruct data; inversion ED; reflexivity.
-Qed.
-
-Lemma ex_fam2_no_fail : no_fail_layers ex_fam2.
-Proof.
-  intros t d data o acts term EF ED. unfold ex_fam2 in EF.
-  destruct (t =? 10).
-  - inversion EF; subst d. destruct data; inversion ED; reflexivity.
-  - destruct (t =? 11); [|discriminate]. inversion EF; subst d.
-    destruct data; inversion ED; reflexivity.
-Qed.
+Proof. exact thm_C01_seterror_then_failure_refuted. Qed.
+Print Assumptions C01_seterror_then_failure_refuted.
 
 Example C01core_nonvacuous :
   progress ex_fam2 /\ no_seterr ex_fam2 /\ no_fail_layers ex_fam2 /\
@@ -218,9 +130,5 @@ Example C01core_nonvacuous :
     (* and a clean run has no error layer *)
     exists pe2, new_eager 4 ex_fam2 [5;0;7] 10 (mkOpts false false false false false) = NewOk pe2 /\
                 p_failure pe2 = None /\ length (p_layers pe2) = 2%nat.
-Proof.
-  split; [exact ex_fam2_progress|]. split; [exact ex_fam2_no_seterr|]. split; [exact ex_fam2_no_fail|].
-  eexists; eexists. split; [vm_compute; reflexivity|]. split; [vm_compute; reflexivity|].
-  split; [reflexivity|]. split; [reflexivity|].
-  eexists. split; [vm_compute; reflexivity|]. split; reflexivity.
-Qed.
+Proof. exact thm_C01core_nonvacuous. Qed.
+Print Assumptions C01core_nonvacuous.
